@@ -48,6 +48,7 @@ type setModel struct {
 	set        *jet.Set
 	dev        bool
 	simCache   *SimCache
+	lossy      bool // the user-supplied cache forgets entries: repeat hits are not demanded
 	execClean  map[*jet.Template]bool   // templates whose last Execute succeeded with every run-time lookup found
 	succ       map[string]*jet.Template // explicit successful GetTemplate by request name
 	failed     map[string]bool          // last explicit attempt failed
@@ -132,12 +133,19 @@ func (c *c16) newSet(i int) {
 		sm.gen = c.sets[i].gen + 1
 		if c.sets[i].simCache != nil {
 			sm.simCache = NewSimCache(&c.ctrace)
+			sm.lossy = c.sets[i].lossy
 		}
 	} else {
 		sm.dev = c.t.Choose(3) == 2
 		if c.t.Choose(2) == 1 {
 			sm.simCache = NewSimCache(&c.ctrace)
+			sm.lossy = c.t.Choose(4) == 3
 		}
+	}
+	if sm.lossy && sm.simCache != nil {
+		sc := sm.simCache
+		sc.Evict = func() bool { return c.t.Choose(3) == 0 }
+		c.env.Stat("probe:user_supplied_cache_that_forgets_entries", 1)
 	}
 	opts := []jet.Option{jet.WithTemplateNameExtensions(c.exts), jet.WithSafeWriter(nil)}
 	if sm.dev {
@@ -302,6 +310,8 @@ func (c *c16) opGet(sm *setModel, name string, exec bool) {
 	} else {
 		prev := sm.succ[name]
 		switch {
+		case prev != nil && sm.lossy:
+			// a cache that forgets: the lookup may go to the loader again and return another template
 		case prev != nil:
 			c.env.Stat("probe:repeat_lookup_after_success", 1)
 			if err != nil || t != prev {
@@ -448,7 +458,7 @@ func (c *c16) opExec(sm *setModel, t *jet.Template, name string) {
 	// outside development mode, what an Execute loaded at run time (include, includeIfExists, exec)
 	// is remembered like any successful lookup: executing the same template again touches no loader
 	if !sm.dev {
-		if sm.execClean[t] && len(calls) > 0 && err == nil {
+		if sm.execClean[t] && len(calls) > 0 && err == nil && !sm.lossy {
 			c.env.Violate("identical-hit", "nodev:exec-hit-touched-loader", "%s: the previous Execute of this very template succeeded and found every template it looks up at run time, yet this one touched the loader again: %v\nhistory: %s", op, calls, strings.Join(c.hist, " "))
 		}
 		allFound := err == nil && !faultDuringExec
